@@ -92,6 +92,15 @@ def lattice_exact(mon, rng):
     exp = ((A - B) @ Wi.T >= 0).all(axis=1)
     if (ins != exp).any():
         mon.violation("is_inside:batched-wrong", "batched is_inside differs from exact", {"W": Wl})
+    # the same batch in other memory layouts (Fortran order, transposed construction, non-contiguous view)
+    D = Af - Bf
+    for name, arr in (("fortran", np.asfortranarray(D)), ("transposed", np.vstack([D[:, k] for k in range(m)]).T), ("exotic", gen.exotic(D, rng))):
+        insl = np.asarray(order.ordering_cone.is_inside(arr))
+        mon.count("layout_batches")
+        if insl.shape != exp.shape or (insl != exp).any():
+            mon.violation("is_inside:layout-dependent", f"batched is_inside on a {name} array differs from the exact answer in "
+                          f"{int((insl != exp).sum()) if insl.shape == exp.shape else 'all'} of {len(exp)} rows", {"W": Wl, "layout": name})
+            break
 
 
 def laws(mon, rng):
